@@ -199,6 +199,16 @@ class Xor(pg.Xor):
     def from_list(propositions: list, variable: typing.Union[str, puan.variable] = None, default: typing.List[puan.variable] = []) -> "Xor":
         return Xor(*propositions, variable=variable, default=default)
 
+def _occurrences(proposition: puan.Proposition) -> typing.Iterable[puan.Proposition]:
+
+    """
+        The proposition and all its sub propositions, one entry per occurrence (no de-duplication).
+    """
+    return itertools.chain(
+        [proposition],
+        *map(_occurrences, getattr(proposition, "propositions", []))
+    )
+
 class StingyConfigurator(pg.All):
 
     """
@@ -255,13 +265,18 @@ class StingyConfigurator(pg.All):
             -------
                 out : Dict[str, int]
         """
-        flat = self.flatten()
+        # A prio tag belongs to the id, not to one object: identical sub propositions share a (generated) id
+        # and flatten() keeps only one of them - possibly the untagged twin of a tagged default branch.
+        # Every occurrence is therefore visited and the lowest prio per id is kept.
         return dict(
-            zip(
-                map(operator.attrgetter("id"), flat),
-                map(
-                    lambda p: getattr(p, "prio", -1),
-                    flat
+            map(
+                lambda id_nodes: (
+                    id_nodes[0],
+                    min(map(lambda p: getattr(p, "prio", -1), id_nodes[1])),
+                ),
+                itertools.groupby(
+                    sorted(_occurrences(self), key=operator.attrgetter("id")),
+                    key=operator.attrgetter("id"),
                 )
             )
         )
